@@ -707,4 +707,142 @@ theorem neutralizeRaw_neg_NF {v : Arg} (hv : NF isReg v) (hc : isC v = false) (h
 
 end
 
+/-! ## results of `neutralize_raw` that contribute no constant to the chain -/
+
+theorem fnd_isC {ty : BinOp} {t : Arg} (h : fnd ty t = false) : isC t = false := by
+  unfold fnd at h
+  simp only [Bool.or_eq_false_iff] at h
+  exact h.1
+
+theorem sameFam_cases {ty op : BinOp} (h : sameFam ty op = true) : ty = op ∨ (additive ty ∧ additive op) := by
+  cases ty <;> cases op <;> simp [sameFam, isAddSub, additive] at h ⊢
+
+theorem findC_sameFam {ty op : BinOp} (h : sameFam ty op = true) (t : Arg) (i : Bool) : findC ty t i = findC op t i := by
+  rcases sameFam_cases h with rfl | ⟨h1, h2⟩
+  · rfl
+  · rcases h1 with rfl | rfl <;> rcases h2 with rfl | rfl <;>
+      first | rfl | exact findC_add_sub t i | exact (findC_add_sub t i).symm
+
+theorem fnd_sameFam {ty op : BinOp} (h : sameFam ty op = true) (t : Arg) : fnd ty t = fnd op t := by
+  unfold fnd; rw [findC_sameFam h]
+
+section
+variable {isReg : Bytes → Bool}
+
+theorem neutralizeBin_fnd {ty op : BinOp} {l r : Arg} (hr : NF isReg r) (hty : additive op → additive ty)
+    (hfl : fnd ty l = false) (hfr : fnd ty r = false) {c : Bool} {a' : Arg}
+    (he : neutralizeBin op l r = .ok (c, a')) : fnd ty a' = false := by
+  have hcl : cval l = none := cval_none_iff.2 (fnd_isC hfl)
+  have key : ∃ op' r', a' = neutralMain op' l r' ∧ isC r' = false ∧ fnd ty r' = false := by
+    by_cases hop : op = .add ∨ op = .sub
+    · simp only [neutralizeBin, hop, if_true] at he
+      cases hn : normAddSub (decide (op = .sub)) r with
+      | err e => simp [hn] at he
+      | panic => simp [hn] at he
+      | ok p =>
+        obtain ⟨ch, s', r'⟩ := p
+        simp only [hn] at he
+        obtain ⟨_, _, _, t4⟩ := neutralTail_ok he
+        obtain ⟨_, _, _, n4, _, n6⟩ := normAddSub_NF hr hn
+        exact ⟨_, r', t4, by rw [n4]; exact fnd_isC hfr, by rw [n6 ty (hty hop)]; exact hfr⟩
+    · simp only [neutralizeBin, hop, if_false] at he
+      obtain ⟨_, _, _, t4⟩ := neutralTail_ok he
+      exact ⟨op, r, t4, fnd_isC hfr, hfr⟩
+  obtain ⟨op', r', rfl, hcr, hfr'⟩ := key
+  have : neutralMain op' l r' = .bin op' l r' := by
+    unfold neutralMain; simp only [hcl, cval_none_iff.2 hcr]
+  rw [this]
+  exact fnd_bin_intro hfl hfr'
+
+theorem neutralizeRaw_bin_fnd {ty op : BinOp} {l r : Arg} (hr : NF isReg r) (hty : additive op → additive ty)
+    (hfl : fnd ty l = false) (hfr : fnd ty r = false) {c : Bool} {a' : Arg}
+    (he : neutralizeRaw (.bin op l r) = .ok (c, a')) : fnd ty a' = false := by
+  rcases neutralizeRaw_bin_cases op l r with h0 | ⟨x, y, _, hl0, _, _⟩
+  · rw [h0] at he; exact neutralizeBin_fnd hr hty hfl hfr he
+  · rw [hl0] at hfl; simp [fnd] at hfl
+
+theorem neutralizeRaw_neg_fnd {ty : BinOp} {v : Arg} (hv : NF isReg v) (hty : additive ty)
+    (hfv : fnd ty v = false) {c : Bool} {a' : Arg} (he : neutralizeRaw (.neg v) = .ok (c, a')) :
+    fnd ty a' = false := by
+  rcases neutralizeRaw_neg_cases v with h0 | ⟨x, y, rfl, h0⟩
+  · rw [h0] at he
+    simp only [Res.ok.injEq, Prod.mk.injEq] at he
+    obtain ⟨_, rfl⟩ := he
+    rw [fnd_neg hty (fnd_isC hfv)]; exact hfv
+  · rw [h0] at he
+    obtain ⟨_, c', he'⟩ := swapped_ok he
+    obtain ⟨hx, hy, hf⟩ := NF_bin_inv hv
+    have hsf : sameFam ty .sub = true := by rcases hty with rfl | rfl <;> rfl
+    obtain ⟨fx, fy⟩ := fnd_bin_false (by rfl) hsf (lfix_bin hf).2.2.1 (NF_nb hx) hfv
+    exact neutralizeBin_fnd hx (fun _ => hty) fy fx he'
+
+end
+
+/-! ## `setC` / `dropC` as one traversal -/
+
+/-- follow `search` to the node that holds the constant and transform that node -/
+def mapC (ty : BinOp) (f : Arg → Arg) : Arg → Arg
+  | .bin op l r =>
+    if chainOp op then
+      if sameFam ty op then
+        match cval l, cval r with
+        | some _, _ => f (.bin op l r)
+        | none, some _ => f (.bin op l r)
+        | none, none =>
+          if (findC ty l false).isFound then .bin op (mapC ty f l) r else .bin op l (mapC ty f r)
+      else .bin op l r
+    else if op == .div then
+      if ty == .div then
+        match cval l, cval r with
+        | some _, _ => f (.bin op l r)
+        | none, some _ => f (.bin op l r)
+        | none, none => .bin op (mapC ty f l) r
+      else .bin op l r
+    else .bin op l r
+  | .neg v => if isAddSub ty then .neg (mapC ty f v) else .neg v
+  | a => a
+
+/-- `*lhs_val = n` at the holder -/
+def setH (n : Int) : Arg → Arg
+  | .bin op l r => match cval l with
+    | some _ => .bin op (.const n) r
+    | none => .bin op l (.const n)
+  | a => a
+
+/-- the splice at the holder -/
+def dropH : Arg → Arg
+  | .bin op l r => match cval l with
+    | some _ => if op == .sub then .neg r else r
+    | none => l
+  | a => a
+
+theorem setC_eq_mapC (ty : BinOp) (n : Int) (a : Arg) : setC ty n a = mapC ty (setH n) a := by
+  induction a using Arg.ind with
+  | bin op l r ihl ihr =>
+    simp only [setC, mapC, ihl, ihr, setH]
+    split
+    · split
+      · split <;> simp_all
+      · rfl
+    · split
+      · split
+        · split <;> simp_all
+        · rfl
+      · rfl
+  | neg v ih => simp only [setC, mapC, ih]
+  | _ => rfl
+
+theorem dropC_eq_mapC (ty : BinOp) (hty : ty ≠ .div) (a : Arg) : dropC ty a = mapC ty dropH a := by
+  induction a using Arg.ind with
+  | bin op l r ihl ihr =>
+    simp only [dropC, mapC, ihl, ihr, dropH]
+    have hd : (ty == BinOp.div) = false := by cases ty <;> simp_all
+    split
+    · split
+      · split <;> simp_all
+      · rfl
+    · simp [hd]
+  | neg v ih => simp only [dropC, mapC, ih]
+  | _ => rfl
+
 end Trion.Simp
